@@ -1,13 +1,32 @@
-"""Translator for C11: does a run start from a clean line cache?  (by execution, in a fresh process)"""
+"""Translator for C11.
+
+`History`  — does a run start from a clean line cache?  (by execution, in a fresh process)
+`Globals`  — the process-global state of refurb, as a script for the machine of Model/History.lean:
+             an `ast` scan of every module under /repo/refurb for
+               * module-level mutable containers and the statements (in function bodies, anywhere in the package) that
+                 store into / clear / read them, with the KIND of key used (`id(...)` of a live object, or anything else),
+               * `@cache` / `@lru_cache` functions, their `cache_clear()` calls and whether their body is pure,
+               * attributes of imported modules assigned from function bodies (`types.BUILTINS_MYPY_FILE = ...`), `global` rebinding,
+               * interpreter-wide setters (`sys.set*`, `sys.path.*`, `os.environ`, `os.chdir`, ...), `importlib.import_module`,
+               * class-level containers and mutable default arguments that a function mutates,
+             placed on the statements of `main()` / `run_refurb()` in source order (a name-based call graph decides which statement
+             can reach which access; `finally` bodies become `defer`s; loops, conditionals and callees become `free` phases);
+             plus by-execution probes in one worker process (snapshot every module-level container of refurb.* before and after
+             runs over a corpus; interpreter settings before / after a good run, a mypy failure and a raising check; identity of
+             `types.BUILTINS_MYPY_FILE` across runs).
+"""
 
 from __future__ import annotations
 
+import ast
 import json
 import subprocess
 import textwrap
+from pathlib import Path
+from typing import Any, Iterable
 
 from . import core, extract
-from .extract import HEADER, lbool
+from .extract import HEADER, lbool, lstr
 
 PROBE = textwrap.dedent(
     """
@@ -43,3 +62,783 @@ def gen_history() -> str:
         + "def runStartsWithFreshLines : Bool := %s\n" % lbool(out["fresh_after_run"])
         + "\nend RefurbVerif.Generated\n"
     )
+
+
+# ---------------------------------------------------------------------------------------------------------------
+# Globals: the static scan
+
+CONTAINER_CTORS = {"set", "list", "dict", "defaultdict", "deque", "Counter", "OrderedDict", "bytearray", "WeakSet", "WeakValueDictionary", "WeakKeyDictionary"}
+MUTATORS = {"add", "append", "extend", "update", "insert", "pop", "remove", "discard", "setdefault", "popitem", "sort", "reverse", "appendleft", "extendleft",
+            "popleft", "__setitem__", "__delitem__", "difference_update", "intersection_update", "symmetric_difference_update", "subtract"}
+READERS = {"get", "keys", "values", "items", "copy", "index", "count", "issubset", "issuperset", "isdisjoint", "union", "intersection", "difference", "__contains__",
+           "__getitem__", "most_common"}
+CACHE_DECORATORS = {"cache", "lru_cache", "cached"}
+# functions a cached function may call and still be a function of its arguments alone
+PURE_FUNCS = {"len", "signature", "isinstance", "issubclass", "type", "tuple", "frozenset", "str", "repr", "int", "bool", "getattr", "hasattr", "min", "max", "sorted"}
+# interpreter-wide state other than `sys.set*`: (receiver, attribute) of a call or a subscript store that changes it
+WIDE_SETTERS = {("os", "chdir"), ("os", "putenv"), ("os", "unsetenv"), ("locale", "setlocale"), ("warnings", "simplefilter"), ("warnings", "filterwarnings"),
+                ("logging", "basicConfig"), ("signal", "signal"), ("gc", "disable"), ("gc", "enable"), ("gc", "set_threshold"), ("random", "seed"),
+                ("atexit", "register"), ("threading", "setprofile"), ("threading", "settrace"), ("mimetypes", "add_type"), ("linecache", "clearcache")}
+ENTRY = ("refurb.main", "main")
+INLINE = {"run_refurb"}  # callees of the entry point whose statements are laid out one by one
+
+
+class Access:
+    """one static access: component, op (Lean text), where"""
+
+    def __init__(self, comp: str, op: str, where: str, src: str) -> None:
+        self.comp, self.op, self.where, self.src = comp, op, where, src
+
+    def key(self) -> tuple[str, str]:
+        return (self.comp, self.op)
+
+
+class Mod:
+    def __init__(self, name: str, path: Path) -> None:
+        self.name, self.path = name, path
+        self.rel = str(path.relative_to(core.REPO))
+        self.src = path.read_text()
+        self.tree = ast.parse(self.src)
+        self.lines = self.src.split("\n")
+        self.parents: dict[int, ast.AST] = {}
+        for n in ast.walk(self.tree):
+            for ch in ast.iter_child_nodes(n):
+                self.parents[id(ch)] = n
+        # alias -> ("module", dotted) | ("name", module, name)
+        self.imports: dict[str, tuple] = {}
+        pkg = name.rsplit(".", 1)[0] if not path.name == "__init__.py" else name
+        for n in ast.walk(self.tree):
+            if isinstance(n, ast.Import):
+                for a in n.names:
+                    self.imports[a.asname or a.name.split(".")[0]] = ("module", a.name if a.asname else a.name.split(".")[0])
+            elif isinstance(n, ast.ImportFrom):
+                base = n.module or ""
+                if n.level:
+                    parts = pkg.split(".")
+                    parts = parts[: len(parts) - (n.level - 1)]
+                    base = ".".join(parts + ([n.module] if n.module else []))
+                for a in n.names:
+                    self.imports[a.asname or a.name] = ("name", base, a.name)
+
+    def where(self, n: ast.AST) -> str:
+        return f"{self.rel}:{getattr(n, 'lineno', 0)}"
+
+    def text(self, n: ast.AST) -> str:
+        ln = getattr(n, "lineno", 1)
+        return self.lines[ln - 1].strip()[:90]
+
+    def enclosing_function(self, n: ast.AST) -> ast.AST | None:
+        p = self.parents.get(id(n))
+        while p is not None and not isinstance(p, (ast.FunctionDef, ast.AsyncFunctionDef, ast.Lambda)):
+            p = self.parents.get(id(p))
+        return p
+
+
+def load_modules() -> dict[str, Mod]:
+    mods = {}
+    root = core.REPO / "refurb"
+    for p in sorted(root.rglob("*.py")):
+        rel = p.relative_to(core.REPO).with_suffix("")
+        parts = list(rel.parts)
+        if parts[-1] == "__init__":
+            parts.pop()
+        mods[".".join(parts)] = Mod(".".join(parts), p)
+    return mods
+
+
+def is_container_ctor(v: ast.AST | None) -> bool:
+    if isinstance(v, (ast.List, ast.Dict, ast.Set, ast.ListComp, ast.DictComp, ast.SetComp)):
+        return True
+    if isinstance(v, ast.Call):
+        f = v.func
+        if isinstance(f, ast.Subscript):  # set[int]()
+            f = f.value
+        if isinstance(f, ast.Attribute):
+            f = ast.Name(id=f.attr)
+        return isinstance(f, ast.Name) and f.id in CONTAINER_CTORS
+    return False
+
+
+def is_empty_ctor(v: ast.AST | None) -> bool:
+    if isinstance(v, (ast.List, ast.Set)) and not v.elts:
+        return True
+    if isinstance(v, ast.Dict) and not v.keys:
+        return True
+    return isinstance(v, ast.Call) and is_container_ctor(v) and not v.args and not v.keywords
+
+
+def key_kind(e: ast.AST | None) -> str:
+    """`.liveNode` when the key is `id(<something>)`, `.stable` otherwise"""
+    if isinstance(e, ast.Call) and isinstance(e.func, ast.Name) and e.func.id == "id" and len(e.args) == 1:
+        return ".liveNode"
+    return ".stable"
+
+
+def decorator_name(d: ast.AST) -> str:
+    if isinstance(d, ast.Call):
+        d = d.func
+    if isinstance(d, ast.Attribute):
+        return d.attr
+    return d.id if isinstance(d, ast.Name) else ""
+
+
+def lean_int(v: int) -> str:
+    return str(v) if v >= 0 else f"({v})"
+
+
+class Scan:
+    def __init__(self) -> None:
+        self.mods = load_modules()
+        self.components: dict[str, dict[str, Any]] = {}  # name -> {where, how}
+        self.const_tables: list[str] = []
+        self.accesses: dict[tuple[str, int], list[Access]] = {}  # (module, id(function node)) -> accesses made directly in its body
+        self.funcs: dict[tuple[str, int], tuple[Mod, ast.AST]] = {}
+        self.by_name: dict[str, list[tuple[str, int]]] = {}
+        self.notes: list[str] = []
+        for m in self.mods.values():
+            for n in ast.walk(m.tree):
+                if isinstance(n, (ast.FunctionDef, ast.AsyncFunctionDef)):
+                    k = (m.name, id(n))
+                    self.funcs[k] = (m, n)
+                    self.by_name.setdefault(n.name, []).append(k)
+        self.find_containers()
+        self.find_caches()
+        self.find_module_attrs()
+        self.find_interpreter_wide()
+        self.find_class_and_default_state()
+
+    # -- bookkeeping
+    def add_component(self, name: str, where: str, how: str) -> None:
+        self.components.setdefault(name, {"where": where, "how": how})
+
+    def record(self, m: Mod, node: ast.AST, comp: str, op: str) -> None:
+        fn = m.enclosing_function(node)
+        if fn is None or isinstance(fn, ast.Lambda) and m.enclosing_function(fn) is None:
+            return  # import time: part of how the interpreter starts
+        while isinstance(fn, ast.Lambda):
+            fn = m.enclosing_function(fn)
+        self.accesses.setdefault((m.name, id(fn)), []).append(Access(comp, op, m.where(node), m.text(node)))
+
+    def resolve(self, m: Mod, e: ast.AST) -> tuple[str, str] | None:
+        """(module, attribute) a Name / `mod.attr` expression denotes, through this module's imports"""
+        if isinstance(e, ast.Name):
+            imp = m.imports.get(e.id)
+            if imp and imp[0] == "name":
+                return (imp[1], imp[2])
+            return (m.name, e.id)
+        if isinstance(e, ast.Attribute) and isinstance(e.value, ast.Name):
+            imp = m.imports.get(e.value.id)
+            if imp and imp[0] == "module":
+                return (imp[1], e.attr)
+            if imp and imp[0] == "name":  # `from . import types` -> types.X
+                return (f"{imp[1]}.{imp[2]}" if imp[1] else imp[2], e.attr)
+        return None
+
+    def locally_bound(self, m: Mod, node: ast.AST, name: str) -> bool:
+        fn = m.enclosing_function(node)
+        while fn is not None:
+            if not isinstance(fn, ast.Lambda):
+                declared_global = any(isinstance(s, ast.Global) and name in s.names for s in ast.walk(fn))
+                if declared_global:
+                    return False
+                args = fn.args
+                names = [a.arg for a in args.args + args.kwonlyargs + args.posonlyargs] + ([args.vararg.arg] if args.vararg else []) + ([args.kwarg.arg] if args.kwarg else [])
+                if name in names:
+                    return True
+                for s in ast.walk(fn):
+                    if isinstance(s, ast.Name) and s.id == name and isinstance(s.ctx, ast.Store):
+                        return True
+            else:
+                if name in [a.arg for a in fn.args.args]:
+                    return True
+            fn = m.enclosing_function(fn)
+        return False
+
+    # -- (1) module-level containers
+    def find_containers(self) -> None:
+        cands: dict[tuple[str, str], str] = {}
+        for m in self.mods.values():
+            for st in m.tree.body:
+                tgt, val = None, None
+                if isinstance(st, ast.Assign) and len(st.targets) == 1 and isinstance(st.targets[0], ast.Name):
+                    tgt, val = st.targets[0].id, st.value
+                elif isinstance(st, ast.AnnAssign) and isinstance(st.target, ast.Name):
+                    tgt, val = st.target.id, st.value
+                if tgt and is_container_ctor(val):
+                    cands[(m.name, tgt)] = m.where(st)
+        uses: dict[tuple[str, str], list[tuple[Mod, ast.AST, str]]] = {k: [] for k in cands}
+        for m in self.mods.values():
+            for n in ast.walk(m.tree):
+                if isinstance(n, ast.Name) or (isinstance(n, ast.Attribute) and isinstance(n.value, ast.Name)):
+                    if isinstance(n, ast.Name) and isinstance(m.parents.get(id(n)), ast.Attribute) and False:
+                        continue
+                    tgt = self.resolve(m, n)
+                    if tgt in cands:
+                        if isinstance(n, ast.Name) and tgt[0] == m.name and self.locally_bound(m, n, n.id):
+                            continue
+                        if isinstance(n, ast.Name) and isinstance(m.parents.get(id(n)), ast.Attribute) and m.parents[id(n)].value is n and self.resolve(m, m.parents[id(n)]) in cands:
+                            continue  # the `mod` of `mod.TABLE`
+                        op = self.container_access(m, n)
+                        for o in op:
+                            uses[tgt].append((m, n, o))
+        for (mod, name), where in sorted(cands.items()):
+            stores = [u for u in uses[(mod, name)] if not u[2].startswith(".get") and u[0].enclosing_function(u[1]) is not None]
+            comp = f"{mod}.{name}"
+            if not stores:
+                self.const_tables.append(comp)
+                continue
+            self.add_component(comp, where, "module-level container that a function stores into")
+            for m, n, o in uses[(mod, name)]:
+                self.record(m, n, comp, o)
+
+    def container_access(self, m: Mod, n: ast.AST) -> list[str]:
+        p = m.parents.get(id(n))
+        if isinstance(p, ast.Attribute) and p.value is n:
+            gp = m.parents.get(id(p))
+            if isinstance(gp, ast.Call) and gp.func is p:
+                arg = gp.args[0] if gp.args else None
+                if p.attr == "clear":
+                    return [".clear"]
+                if p.attr in MUTATORS:
+                    return [f".put {key_kind(arg)}"]
+                if p.attr in READERS:
+                    return [f".get {key_kind(arg)}"]
+                return [".put .stable", ".get .stable"]  # a method this scan does not know
+            return [".get .stable"]
+        if isinstance(p, ast.Compare) and n in p.comparators and all(isinstance(o, (ast.In, ast.NotIn)) for o in p.ops):
+            return [f".get {key_kind(p.left)}"]
+        if isinstance(p, ast.Subscript) and p.value is n:
+            if isinstance(p.ctx, (ast.Store, ast.Del)):
+                return [f".put {key_kind(p.slice)}"]
+            gp = m.parents.get(id(p))
+            if isinstance(gp, ast.AugAssign) and gp.target is p:
+                return [f".put {key_kind(p.slice)}", f".get {key_kind(p.slice)}"]
+            return [f".get {key_kind(p.slice)}"]
+        if isinstance(p, ast.AugAssign) and p.target is n:
+            return [".put .stable", ".get .stable"]
+        if isinstance(n, ast.Name) and isinstance(n.ctx, ast.Store) or isinstance(n, ast.Attribute) and isinstance(n.ctx, ast.Store):
+            if isinstance(p, (ast.Assign, ast.AnnAssign)) and is_empty_ctor(p.value):
+                return [".clear"]
+            return [".put .stable"]
+        if isinstance(n.ctx, ast.Del):
+            return [".clear"]
+        # iterated, passed on, returned, compared as a whole: a read of everything in it (a callee that mutates its argument
+        # is what the by-execution snapshot is for)
+        return [".get .stable"]
+
+    # -- (2) caches
+    def find_caches(self) -> None:
+        for (mod, _), (m, fn) in list(self.funcs.items()):
+            if not any(decorator_name(d) in CACHE_DECORATORS for d in fn.decorator_list):
+                continue
+            comp = f"{mod}.{fn.name}()"
+            pure = self.is_pure(fn)
+            self.add_component(comp, m.where(fn), "functools cache of a function %s" % ("of its arguments alone" if pure else "that reads more than its arguments"))
+            for m2 in self.mods.values():
+                for n in ast.walk(m2.tree):
+                    if not isinstance(n, (ast.Name, ast.Attribute)) or self.resolve(m2, n) != (mod, fn.name):
+                        continue
+                    if n is fn:
+                        continue
+                    p = m2.parents.get(id(n))
+                    if isinstance(p, ast.Attribute) and p.value is n and p.attr == "cache_clear":
+                        self.record(m2, n, comp, ".clear")
+                    elif isinstance(p, ast.Attribute) and p.value is n and p.attr in ("cache_info", "cache_parameters", "__wrapped__", "__name__"):
+                        continue
+                    elif isinstance(n, ast.Name) and isinstance(n.ctx, ast.Store):
+                        continue
+                    else:
+                        # a call, or the function handed to something that will call it
+                        self.record(m2, n, comp, ".get .stable" if pure else ".memo .stable")
+
+    def is_pure(self, fn: ast.AST) -> bool:
+        params = {a.arg for a in fn.args.args + fn.args.kwonlyargs + fn.args.posonlyargs}
+        local = set(params)
+        for n in ast.walk(fn):
+            if isinstance(n, ast.Name) and isinstance(n.ctx, ast.Store):
+                local.add(n.id)
+        for st in fn.body:
+            for n in ast.walk(st):
+                if isinstance(n, ast.Call):
+                    f = n.func
+                    if not (isinstance(f, ast.Name) and f.id in PURE_FUNCS):
+                        return False
+                elif isinstance(n, ast.Name) and isinstance(n.ctx, ast.Load) and n.id not in local and n.id not in PURE_FUNCS:
+                    return False
+                elif isinstance(n, (ast.Global, ast.Nonlocal, ast.Yield, ast.YieldFrom, ast.Await, ast.With, ast.Try)):
+                    return False
+        return True
+
+    # -- (3) attributes of modules assigned from function bodies, `global` rebinding
+    def find_module_attrs(self) -> None:
+        targets: dict[tuple[str, str], str] = {}
+        for m in self.mods.values():
+            for n in ast.walk(m.tree):
+                tg: list[ast.AST] = []
+                if isinstance(n, ast.Assign):
+                    tg = list(n.targets)
+                elif isinstance(n, (ast.AnnAssign, ast.AugAssign)):
+                    tg = [n.target]
+                for t in tg:
+                    if m.enclosing_function(n) is None:
+                        continue
+                    if isinstance(t, ast.Attribute) and isinstance(t.value, ast.Name):
+                        r = self.resolve(m, t)
+                        if r and r[0] in self.mods and not self.locally_bound(m, t, t.value.id):
+                            targets.setdefault(r, m.where(n))
+                    elif isinstance(t, ast.Name):
+                        fn = m.enclosing_function(n)
+                        if fn is not None and not isinstance(fn, ast.Lambda) and any(isinstance(s, ast.Global) and t.id in s.names for s in ast.walk(fn)):
+                            targets.setdefault((m.name, t.id), m.where(n))
+        for (mod, attr), where in sorted(targets.items()):
+            comp = f"{mod}.{attr}"
+            if comp in self.components:
+                continue  # a container that is also rebound: handled as a container
+            self.add_component(comp, where, "module attribute assigned from a function body")
+            for m in self.mods.values():
+                for n in ast.walk(m.tree):
+                    if not isinstance(n, (ast.Name, ast.Attribute)) or self.resolve(m, n) != (mod, attr):
+                        continue
+                    if isinstance(n, ast.Name) and mod == m.name and self.locally_bound(m, n, n.id):
+                        continue
+                    if isinstance(n.ctx, ast.Store):
+                        p = m.parents.get(id(n))
+                        v = getattr(p, "value", None)
+                        if isinstance(p, ast.AugAssign):
+                            self.record(m, n, comp, ".bump 1")
+                        elif isinstance(v, ast.Constant) and isinstance(v.value, int) and not isinstance(v.value, bool):
+                            self.record(m, n, comp, f".putConst {lean_int(v.value)}")
+                        else:
+                            self.record(m, n, comp, ".put .cell")
+                    else:
+                        self.record(m, n, comp, ".get .cell")
+
+    # -- (4) interpreter-wide state
+    def find_interpreter_wide(self) -> None:
+        # the recursion limit is always listed: a traversal's depth depends on it (refurb suppresses RecursionError, issue #302)
+        self.add_component("sys.recursionlimit", "-", "interpreter setting (sys.setrecursionlimit / sys.getrecursionlimit)")
+        for m in self.mods.values():
+            for n in ast.walk(m.tree):
+                if not isinstance(n, ast.Call) or not isinstance(n.func, ast.Attribute):
+                    continue
+                f = n.func
+                recv = f.value
+                r = self.resolve(m, f) if isinstance(recv, ast.Name) else None
+                if r and r[0] == "sys" and (f.attr.startswith("set") or f.attr.startswith("get")) and f.attr not in ("getsizeof", "getrefcount", "getdefaultencoding", "getfilesystemencoding"):
+                    what = f.attr[3:].lstrip("_")
+                    comp = f"sys.{what}"
+                    self.add_component(comp, m.where(n), f"interpreter setting (sys.{f.attr})")
+                    if f.attr.startswith("get"):
+                        self.record(m, n, comp, ".get .cell")
+                        continue
+                    arg = n.args[0] if n.args else None
+                    reads_old = any(isinstance(x, ast.Attribute) and x.attr == "get" + f.attr[3:] for x in ast.walk(n))
+                    if reads_old or not (isinstance(arg, ast.Constant) and isinstance(arg.value, int)):
+                        # relative to the current value, or a value this scan cannot see: only a constant is a reset
+                        off = 1
+                        if isinstance(arg, ast.BinOp) and isinstance(arg.right, ast.Constant) and isinstance(arg.right.value, int):
+                            off = arg.right.value if isinstance(arg.op, ast.Add) else -arg.right.value if isinstance(arg.op, ast.Sub) else 1
+                        self.record(m, n, comp, f".bump {lean_int(off)}")
+                    else:
+                        self.record(m, n, comp, f".putConst {lean_int(arg.value)}")
+                elif isinstance(recv, ast.Attribute) and isinstance(recv.value, ast.Name) and self.resolve(m, recv) == ("sys", "path") and f.attr in MUTATORS | {"clear"}:
+                    self.add_component("sys.path", m.where(n), "interpreter setting (import search path)")
+                    self.record_sys_path(m, n)
+                elif r and (r[0], r[1]) in WIDE_SETTERS:
+                    comp = f"{r[0]}.{r[1]}()"
+                    self.add_component(comp, m.where(n), "interpreter-wide setter")
+                    const = all(isinstance(a, ast.Constant) for a in n.args) and not n.keywords
+                    self.record(m, n, comp, ".putConst 1" if const else ".put .stable")
+                elif r and r in (("importlib", "import_module"), ("importlib", "reload")) or (isinstance(f, ast.Attribute) and False):
+                    self.add_component("sys.modules", m.where(n), "the interpreter's import cache (importlib.import_module)")
+                    # assumption CodeFixed: the source of an imported module does not change while the process lives, so an
+                    # import is a read of a constant.  `reload` would not be.
+                    self.record(m, n, "sys.modules", ".get .stable" if r[1] == "import_module" else ".put .stable")
+            for n in ast.walk(m.tree):
+                # os.environ[...] = ..., del os.environ[...]
+                if isinstance(n, ast.Subscript) and isinstance(n.ctx, (ast.Store, ast.Del)) and isinstance(n.value, ast.Attribute) and isinstance(n.value.value, ast.Name) and self.resolve(m, n.value) == ("os", "environ"):
+                    self.add_component("os.environ", m.where(n), "process environment")
+                    self.record(m, n, "os.environ", ".put .stable")
+
+    def record_sys_path(self, m: Mod, call: ast.Call) -> None:
+        """`sys.path.append(str(Path.cwd()))`: with the working directory fixed for the life of the process (assumption CwdFixed) the
+        same value is stored by every run; it counts as an overwrite-before-read when it is an unconditional statement of its
+        function that precedes every import made there"""
+        fn = m.enclosing_function(call)
+        ok = False
+        if isinstance(fn, (ast.FunctionDef, ast.AsyncFunctionDef)) and call.func.attr == "append":  # type: ignore[attr-defined]
+            arg = call.args[0] if call.args else None
+            is_cwd = arg is not None and any(isinstance(x, ast.Attribute) and x.attr in ("cwd", "getcwd") for x in ast.walk(arg))
+            st_index = next((i for i, st in enumerate(fn.body) if isinstance(st, ast.Expr) and st.value is call), None)
+            if is_cwd and st_index is not None:
+                before = fn.body[:st_index]
+                ok = not any(isinstance(x, ast.Call) and isinstance(x.func, ast.Attribute) and x.func.attr in ("import_module", "reload") for st in before for x in ast.walk(st))
+        # the store and the reads that follow it in the same activation are ONE access (`refresh`: store, then read back)
+        self.record(m, call, "sys.path", ".refresh" if ok else ".put .stable")
+        if ok:
+            self.notes.append("sys.path: `append(cwd)` is the first statement of its function, every import of that function comes after it; assumption CwdFixed")
+        # every import reads the search path
+        for m2 in self.mods.values():
+            for n in ast.walk(m2.tree):
+                if isinstance(n, ast.Call) and isinstance(n.func, ast.Attribute) and n.func.attr in ("import_module", "walk_packages", "reload"):
+                    if ok and m2 is m and m2.enclosing_function(n) is not None and self.outer_function(m2, n) is fn:
+                        continue  # part of the `refresh`
+                    self.record(m2, n, "sys.path", ".get .cell" if ok else ".get .stable")
+
+    def outer_function(self, m: Mod, n: ast.AST) -> ast.AST | None:
+        """the outermost-but-one function around a node that is still inside `fn` chains: a generator expression or lambda in
+        a function belongs to that function"""
+        f = m.enclosing_function(n)
+        while isinstance(f, ast.Lambda):
+            f = m.enclosing_function(f)
+        return f
+
+    # -- (5) class-level containers and mutable default arguments that are mutated
+    def find_class_and_default_state(self) -> None:
+        for m in self.mods.values():
+            for cls in ast.walk(m.tree):
+                if not isinstance(cls, ast.ClassDef):
+                    continue
+                level = {}
+                for st in cls.body:
+                    if isinstance(st, ast.Assign) and len(st.targets) == 1 and isinstance(st.targets[0], ast.Name) and is_container_ctor(st.value):
+                        level[st.targets[0].id] = st
+                    elif isinstance(st, ast.AnnAssign) and isinstance(st.target, ast.Name) and is_container_ctor(st.value):
+                        level[st.target.id] = st
+                if not level:
+                    continue
+                inst_assigned = {t.attr for f in cls.body if isinstance(f, ast.FunctionDef) for n in ast.walk(f) if isinstance(n, (ast.Assign, ast.AnnAssign))
+                                 for t in (n.targets if isinstance(n, ast.Assign) else [n.target]) if isinstance(t, ast.Attribute) and isinstance(t.value, ast.Name) and t.value.id == "self"}
+                for name, st in level.items():
+                    if name in inst_assigned:
+                        continue
+                    for m2 in self.mods.values():
+                        for n in ast.walk(m2.tree):
+                            if isinstance(n, ast.Attribute) and n.attr == name and isinstance(n.value, ast.Name) and n.value.id in ("self", "cls", cls.name):
+                                ops = self.container_access(m2, n)
+                                if any(not o.startswith(".get") for o in ops):
+                                    comp = f"{m.name}.{cls.name}.{name}"
+                                    self.add_component(comp, m.where(st), "class-level container that a method stores into")
+                                    for o in ops:
+                                        self.record(m2, n, comp, o)
+            for (mod, _), (mm, fn) in self.funcs.items():
+                if mod != m.name:
+                    continue
+                defaults = [(a, d) for a, d in zip(reversed(fn.args.args), reversed(fn.args.defaults))] + [(a, d) for a, d in zip(fn.args.kwonlyargs, fn.args.kw_defaults) if d is not None]
+                for a, d in defaults:
+                    if not is_container_ctor(d):
+                        continue
+                    for n in ast.walk(fn):
+                        if isinstance(n, ast.Name) and n.id == a.arg and isinstance(n.ctx, ast.Load):
+                            ops = self.container_access(mm, n)
+                            if any(not o.startswith(".get") for o in ops):
+                                comp = f"{m.name}.{fn.name}({a.arg}=<mutable default>)"
+                                self.add_component(comp, mm.where(fn), "mutable default argument that the function stores into")
+                                for o in ops:
+                                    self.record(mm, n, comp, o)
+
+    # -- the call graph (by simple name) and the layout on the statements of main() / run_refurb()
+    def called_names(self, node: ast.AST) -> set[str]:
+        out = set()
+        for n in ast.walk(node):
+            if isinstance(n, ast.Call):
+                f = n.func
+                if isinstance(f, ast.Name):
+                    out.add(f.id)
+                elif isinstance(f, ast.Attribute):
+                    out.add(f.attr)
+            elif isinstance(n, ast.Name) and isinstance(n.ctx, ast.Load) and n.id in self.by_name:
+                out.add(n.id)  # a function handed over as a value (`key=partial(sort_errors, ...)`)
+        return out
+
+    def reach(self, names: Iterable[str]) -> list[Access]:
+        seen: set[tuple[str, int]] = set()
+        todo = [k for nm in names for k in self.by_name.get(nm, [])]
+        visit_zone = [k for k, (m, fn) in self.funcs.items() if m.name.startswith("refurb.checks")]
+        out: list[Access] = []
+        while todo:
+            k = todo.pop()
+            if k in seen:
+                continue
+            seen.add(k)
+            m, fn = self.funcs[k]
+            out += self.accesses.get(k, [])
+            for nm in self.called_names(fn):
+                todo += self.by_name.get(nm, [])
+            if m.name.startswith("refurb.visitor"):
+                todo += visit_zone  # the visitor calls the loaded check functions, whichever they are
+        return out
+
+    def direct(self, m: Mod, fn: ast.AST, st: ast.AST) -> list[Access]:
+        lo, hi = st.lineno, getattr(st, "end_lineno", st.lineno)
+        out = []
+        for a in self.accesses.get((m.name, id(fn)), []):
+            ln = int(a.where.rsplit(":", 1)[1])
+            if lo <= ln <= hi:
+                out.append(a)
+        return out
+
+    def layout(self) -> list[tuple[str, str]]:
+        """[(lean instruction, comment)]"""
+        m = self.mods[ENTRY[0]]
+        entry = next(fn for (mod, _), (_, fn) in self.funcs.items() if mod == ENTRY[0] and fn.name == ENTRY[1] and m.enclosing_function(fn) is None)
+        comp_index = {c: i for i, c in enumerate(self.components)}
+        instrs: list[tuple[str, str]] = []
+        placed: set[tuple[str, str, str]] = set()
+
+        def emit_free(accs: list[Access], comment: str) -> None:
+            pairs = []
+            for a in accs:
+                placed.add((a.comp, a.op, a.where))
+                p = f"({comp_index[a.comp]}, {a.op})"
+                if p not in pairs:
+                    pairs.append(p)
+            instrs.append((".free [" + ", ".join(pairs) + "]", comment))
+
+        def is_process_constant(test: ast.AST) -> bool:
+            names = {n.id for n in ast.walk(test) if isinstance(n, ast.Name)}
+            return names <= {"hasattr", "sys", "TYPE_CHECKING"}
+
+        def simple(fnm: Mod, fn: ast.AST, st: ast.AST, always: bool) -> None:
+            d = self.direct(fnm, fn, st)
+            callees = self.called_names(st)
+            inline = [nm for nm in callees if nm in INLINE and nm in self.by_name]
+            r = self.reach(callees - set(inline))
+            d_keys = {(a.comp, a.op, a.where) for a in d}
+            r = [a for a in r if (a.comp, a.op, a.where) not in d_keys]
+            text = fnm.text(st)
+            if always:
+                for a in d:
+                    placed.add((a.comp, a.op, a.where))
+                    instrs.append((f".op {comp_index[a.comp]} ({a.op})", f"{a.where}  {a.src}"))
+            elif d:
+                emit_free(d, f"{fnm.where(st)}  (conditional / repeated)  {text}")
+            if r:
+                emit_free(r, f"{fnm.where(st)}  callees of: {text}")
+            elif not d:
+                instrs.append((".free []", f"{fnm.where(st)}  {text}"))
+            for nm in inline:
+                k = self.by_name[nm][0]
+                mm, f2 = self.funcs[k]
+                walk(mm, f2, f2.body, always)
+
+        def walk(fnm: Mod, fn: ast.AST, stmts: list[ast.stmt], always: bool) -> None:
+            for st in stmts:
+                if isinstance(st, (ast.FunctionDef, ast.AsyncFunctionDef, ast.ClassDef, ast.Import, ast.ImportFrom, ast.Pass, ast.Global)):
+                    continue
+                if isinstance(st, ast.Try):
+                    for fst in st.finalbody:
+                        for a in self.direct(fnm, fn, fst) + self.reach(self.called_names(fst)):
+                            placed.add((a.comp, a.op, a.where))
+                            instrs.append((f".defer {comp_index[a.comp]} ({a.op})", f"{a.where}  finally: {a.src}"))
+                    walk(fnm, fn, st.body, always)
+                    for h in st.handlers:
+                        walk(fnm, fn, h.body, False)
+                    walk(fnm, fn, st.orelse, False)
+                elif isinstance(st, (ast.With, ast.AsyncWith)):
+                    hdr = ast.Expr(value=ast.Tuple(elts=[i.context_expr for i in st.items], ctx=ast.Load()))
+                    ast.copy_location(hdr, st)
+                    hdr.end_lineno = st.items[-1].context_expr.end_lineno
+                    simple(fnm, fn, hdr, always)
+                    walk(fnm, fn, st.body, always)
+                elif isinstance(st, (ast.For, ast.AsyncFor, ast.While)):
+                    hdr = ast.Expr(value=st.iter if not isinstance(st, ast.While) else st.test)
+                    ast.copy_location(hdr, st)
+                    hdr.end_lineno = hdr.value.end_lineno
+                    simple(fnm, fn, hdr, always)
+                    walk(fnm, fn, st.body, False)
+                    walk(fnm, fn, st.orelse, False)
+                elif isinstance(st, ast.If):
+                    if is_process_constant(st.test):
+                        walk(fnm, fn, st.body, always)
+                        walk(fnm, fn, st.orelse, always)
+                    else:
+                        hdr = ast.Expr(value=st.test)
+                        ast.copy_location(hdr, st)
+                        hdr.end_lineno = st.test.end_lineno
+                        simple(fnm, fn, hdr, always)
+                        walk(fnm, fn, st.body, False)
+                        walk(fnm, fn, st.orelse, False)
+                elif isinstance(st, ast.Match):
+                    for c in st.cases:
+                        walk(fnm, fn, c.body, False)
+                else:
+                    simple(fnm, fn, st, always)
+
+        walk(m, entry, entry.body, True)
+        # anything no statement of the entry point reaches (dead code, helpers of other entry points): may happen at any time
+        rest = [a for accs in self.accesses.values() for a in accs if (a.comp, a.op, a.where) not in placed]
+        if rest:
+            pairs = []
+            for a in rest:
+                p = f"({comp_index[a.comp]}, {a.op})"
+                if p not in pairs:
+                    pairs.append(p)
+            instrs.insert(0, (".free [" + ", ".join(pairs) + "]", "not reached from main(): " + "; ".join(sorted({a.where for a in rest}))[:160]))
+        # drop phases that touch nothing (they only matter as places where a run may end, and it may end anywhere already)
+        return [(i, c) for i, c in instrs if i != ".free []"]
+
+
+# ---------------------------------------------------------------------------------------------------------------
+# Globals: by execution
+
+GLOBALS_PROBE = textwrap.dedent(
+    """
+    import gc, json, sys, types as pytypes
+    import refurb.main as m
+    import refurb.types as rtypes
+    from refurb.settings import load_settings
+    from refurb.loader import load_checks
+
+    CONT = (set, list, dict, bytearray)
+    try:
+        from collections import defaultdict, deque, Counter, OrderedDict
+        CONT = CONT + (defaultdict, deque, Counter, OrderedDict)
+    except ImportError:
+        pass
+
+    def containers():
+        out = {}
+        for name, mod in list(sys.modules.items()):
+            if not (name == "refurb" or name.startswith("refurb.")) or mod is None:
+                continue
+            for k, v in list(vars(mod).items()):
+                if isinstance(v, CONT) and not k.startswith("__"):
+                    out[f"{name}.{k}"] = v
+        return out
+
+    def snap():
+        s = {}
+        for k, v in containers().items():
+            try:
+                s[k] = (len(v), hash(repr(sorted(map(repr, v))) if not isinstance(v, (list, bytearray)) else repr(v)))
+            except Exception:
+                s[k] = (len(v), 0)
+        return s
+
+    def settings_now():
+        return {"recursionlimit": sys.getrecursionlimit(), "int_max_str_digits": sys.get_int_max_str_digits() if hasattr(sys, "get_int_max_str_digits") else -1,
+                "path_len_distinct": len(set(sys.path)), "switchinterval": sys.getswitchinterval()}
+
+    plan = json.load(open(sys.argv[1]))
+    out = {"runs": []}
+    # import every check module first: what an import initialises is the start state, not a change
+    load_checks(load_settings([*plan["good"], "--enable-all", "--quiet"]))
+    if hasattr(sys, "set_int_max_str_digits"):
+        sys.set_int_max_str_digits(5000)
+    before = snap()
+    s0 = settings_now()
+    builtins_ids = []
+    for argv in (plan["good"], plan["good"], plan["mypy_fails"], plan["check_raises"], plan["good"]):
+        st = {"argv_kind": "good" if argv is plan["good"] else "bad"}
+        try:
+            errs = m.run_refurb(load_settings([*argv, "--enable-all", "--quiet"]))
+            st["n"] = len(errs)
+            del errs
+        except BaseException as e:
+            st["raised"] = type(e).__name__
+        st["settings"] = settings_now()
+        b = getattr(rtypes, "BUILTINS_MYPY_FILE", None)
+        builtins_ids.append(id(b) if b is not None else 0)
+        out["runs"].append(st)
+        gc.collect()
+    after = snap()
+    out["settings_before"] = s0
+    out["mutated"] = sorted(k for k in after if before.get(k) != after[k])
+    out["new_containers"] = sorted(k for k in after if k not in before)
+    out["grew"] = sorted(k for k in after if k in before and after[k][0] > before[k][0])
+    out["only_ints"] = sorted(k for k, v in containers().items() if k in out["mutated"] and all(isinstance(x, int) for x in v))
+    out["builtins_distinct_per_run"] = len(set(builtins_ids[:2])) == 2 and 0 not in builtins_ids[:2]
+    json.dump(out, open(sys.argv[2], "w"))
+    """
+)
+
+RAISING_PLUGIN = textwrap.dedent(
+    """
+    from dataclasses import dataclass
+    from mypy.nodes import CallExpr
+    from refurb.error import Error
+
+
+    @dataclass
+    class ErrorInfo(Error):
+        prefix = "XYZ"
+        code = 999
+        msg: str = "boom"
+
+
+    def check(node: CallExpr, errors: list[Error]) -> None:
+        raise RuntimeError("a check that raises")
+    """
+)
+
+PROBE_FILES = ["err_123.py", "err_140.py", "err_179.py", "err_185.py", "err_188.py", "err_120.py", "err_105.py", "err_109.py"]
+
+
+def run_globals_probe() -> dict[str, Any]:
+    with core.scratch("rv-c11g-") as d:
+        (d / "pyproject.toml").write_text("")
+        good = []
+        for n in PROBE_FILES:
+            src = core.REPO / "test" / "data" / n
+            if src.exists():
+                (d / f"p_{n}").write_bytes(src.read_bytes())
+                good.append(f"p_{n}")
+        (d / "broken.py").write_text("def broken(:\n")
+        (d / "boom_plugin.py").write_text(RAISING_PLUGIN)
+        plan = {"good": good, "mypy_fails": [good[0], "broken.py"], "check_raises": [good[0], "--load", "boom_plugin"]}
+        (d / "_plan.json").write_text(json.dumps(plan))
+        (d / "_gprobe.py").write_text(GLOBALS_PROBE)
+        p = subprocess.run([core.PY, "_gprobe.py", "_plan.json", "_gout.json"], cwd=d, capture_output=True, text=True, timeout=600, env=core.py_env())
+        if p.returncode != 0:
+            raise RuntimeError("globals probe failed: " + p.stderr[-1500:])
+        return json.loads((d / "_gout.json").read_text())
+
+
+def globals_probe() -> dict[str, Any]:
+    return core.cached_json("c11-globals-probe", ["refurb/**/*.py", "test/data/err_1[0-9][0-9].py"], run_globals_probe)
+
+
+@extract.register("Globals")
+def gen_globals() -> str:
+    sc = Scan()
+    layout = sc.layout()
+    pr = globals_probe()
+    names = list(sc.components)
+    runs = pr["runs"]
+    s0 = pr["settings_before"]
+    good_runs = [r for r in runs if r["argv_kind"] == "good"]
+    limit_kept = all(r["settings"]["recursionlimit"] == s0["recursionlimit"] for r in runs)
+    switch_kept = all(r["settings"]["switchinterval"] == s0["switchinterval"] for r in runs)
+    digits_reset = all(r["settings"]["int_max_str_digits"] in (0, -1) for r in good_runs)
+    failing_seen = sorted({r.get("raised", "returned") for r in runs if r["argv_kind"] == "bad"})
+    out = [HEADER, "import RefurbVerif.Model.History\n", "namespace RefurbVerif.Generated\nopen RefurbVerif.History\n\n"]
+    out.append("/-- the process-global components of refurb found by the scan of /repo/refurb (index = component number) -/\n")
+    out.append("def globalNames : List String := [\n" + ",\n".join(f"  {lstr(n)}" for n in names) + "]\n\n")
+    out.append("/-- where each lives and why it is listed -/\n")
+    out.append("def globalWhere : List String := [\n" + ",\n".join(f"  {lstr(sc.components[n]['where'] + ': ' + sc.components[n]['how'])}" for n in names) + "]\n\n")
+    out.append("/-- `main()` with `run_refurb()` laid out statement by statement: the accesses of the components above, in source order -/\n")
+    out.append("def globalsScript : Script := [\n")
+    for i, (ins, comment) in enumerate(layout):
+        out.append(f"  {ins}{',' if i + 1 < len(layout) else ''}  -- {comment}\n")
+    out.append("]\n\n")
+    out.append("def globalsTable : GlobalsTable := { names := globalNames, script := globalsScript }\n\n")
+    out.append(f"/-- module-level containers of refurb that no function body stores into ({len(sc.const_tables)}): constants -/\n")
+    out.append("def constTables : List String := [\n" + ",\n".join(f"  {lstr(n)}" for n in sc.const_tables) + "]\n\n")
+    out.append("/-! ### by execution (one worker process: two good runs over " + str(len(PROBE_FILES)) + " idiom files, a run mypy refuses, a run in which a loaded check raises, a good run) -/\n\n")
+    out.append("/-- module-level containers of `refurb.*` whose content differs after the runs from what it was after import -/\n")
+    out.append("def dynamicMutated : List String := [" + ", ".join(lstr(n) for n in pr["mutated"]) + "]\n\n")
+    out.append("/-- of those, the ones that hold nothing but `int`s (object addresses) -/\n")
+    out.append("def dynamicOnlyInts : List String := [" + ", ".join(lstr(n) for n in pr["only_ints"]) + "]\n\n")
+    out.append(f"/-- how the failing runs ended: {failing_seen} -/\n")
+    out.append("def probeFailingRunsSeen : Nat := %d\n\n" % len([r for r in runs if r["argv_kind"] == "bad"]))
+    out.append("/-- `sys.getrecursionlimit()` and `sys.getswitchinterval()` after every one of the five runs are what they were before the first -/\n")
+    out.append(f"def probeLimitsKept : Bool := {lbool(limit_kept and switch_kept)}\n\n")
+    out.append("/-- `sys.get_int_max_str_digits()` is 0 after every good run although it was set to 5000 before the first -/\n")
+    out.append(f"def probeDigitsOverwritten : Bool := {lbool(digits_reset)}\n\n")
+    out.append("/-- `types.BUILTINS_MYPY_FILE` is a different object after the second good run than after the first -/\n")
+    out.append(f"def probeBuiltinsReplaced : Bool := {lbool(pr['builtins_distinct_per_run'])}\n\n")
+    for n in sc.notes:
+        out.append(f"-- note: {n}\n")
+    out.append("\nend RefurbVerif.Generated\n")
+    return "".join(out)
